@@ -12,6 +12,11 @@ def search_chunking(job):
             r = c05_iwa.synthetic(case)
             if r and not r.get("ok"):
                 return {"violated": True, "detail": r["detail"], "job": {"custom": "replay_case", "case": case}}
+    for cuts in ("empty-lead", "empty-trail", "empty-mid", "empty-seg", "many"):  # chunks that decompress to nothing
+        case = {"kind": "synthetic", "size": 700, "seed": 6, "segments": 6, "cuts": cuts}
+        r = c05_iwa.synthetic(case)
+        if r and not r.get("ok"):
+            return {"violated": True, "detail": r["detail"], "job": {"custom": "replay_case", "case": case}}
     for sz in (200, 30000):
         case = {"kind": "synthetic", "size": sz, "seed": 5, "snappy_block": True}
         r = c05_iwa.synthetic(case)
